@@ -287,8 +287,11 @@ def spec_step(name, P, r, tol):
     done_want = (0.0 if h else 1.0) if P['terminate'] else 0.0
     hr_want = P['healthyR'] if P['terminate'] else P['healthyR'] * float(h)
   want(float(r['done']) == done_want, 'done-rule',
-       f'done = {float(r["done"])} but the documented termination rule gives {done_want} (torso z = {float(z)!r}'
-       + (f', q[2] = {float(q[2])!r}' if nq > 2 else '') + ')')
+       f'done = {float(r["done"])} but the documented termination rule gives {done_want} ('
+       + {'inverted_pendulum': f'pole angle q[1] = {float(q[1]) if nq > 1 else None!r}, limit 0.2',
+          'inverted_double_pendulum': f'link 2 z + 0.6 = {float(xp[2, 2]) + 0.6 if nb > 2 else None!r}, limit 1'}.get(
+              name, f'torso z = {float(z)!r}' + (f', q[2] = {float(q[2])!r}' if nq > 2 else '')
+              + f', ranges {[P.get(k) for k in ("z", "ang", "st") if k in P]}') + ')')
   # ---- reward = sum of its documented terms, and the simple terms themselves
   rew = float(r['reward'])
   M = {k: float(v) for k, v in met.items()}
@@ -394,7 +397,7 @@ def run_pair(task):
   tol = 1e-9 if x64 else 2e-5
   qtol = 1e-9 if x64 else 1e-6
   res = dict(name=name, backend=backend, x64=x64, spec_failures=[], disagreements=[], evaluations=0,
-             states=0, stats={}, samples=[], wall={}, quat_dev=0.0, model_err=0.0, near_branch=0)
+             states=0, stats={}, samples=[], wall={}, quat_dev=0.0, qquat_dev=0.0, model_err=0.0, near_branch=0)
   base = dict(env=name, backend=backend, x64=bool(x64), steps=task['steps'], batch=task['batch'],
               ep_len=task['ep_len'], key_seed=task['key_seed'], act_seed=task['act_seed'])
   seen = set()
@@ -442,6 +445,11 @@ def run_pair(task):
 
   w = training.wrap(Tap(env), episode_length=task['ep_len'], action_repeat=1)
   P = env_cfg(env, name, backend)
+  free_q, acc = [], 0
+  for ch in env.sys.link_types:
+    if ch == 'f':
+      free_q.append(acc)
+    acc += {'f': 7, '1': 1, '2': 2, '3': 3}[ch]
   from mujoco import mjx
   no_contacts = int(mjx.make_data(env.sys).ncon) == 0
   res['stats']['no_contacts'] = no_contacts
@@ -496,6 +504,16 @@ def run_pair(task):
     if not np.all((done == 0) | (done == 1)):
       fail('done-not-bool', f'{tag}: done not in {{0,1}} at step {t}', step=t)
     dev = float(np.max(np.abs(np.linalg.norm(ps[3].astype(np.float64), axis=-1) - 1))) if ps[3].size else 0.0
+    # quaternion coordinates of free joints in q (part of most observations).  Only after a step of the bare
+    # environment: `reset` perturbs init_q coordinate-wise and does not renormalise (x.rot is normalised by
+    # pipeline_init), so the reset state -- and every auto-reset row -- legitimately has |q[3:7]| != 1
+    for st in (free_q if where == 'inner' else []):
+      dq = float(np.max(np.abs(np.linalg.norm(ps[0][:, st + 3:st + 7].astype(np.float64), axis=-1) - 1)))
+      if np.isfinite(dq):
+        res['qquat_dev'] = max(res['qquat_dev'], dq)
+        if dq > qtol:
+          fail('free-joint-quat-not-unit', f'{tag}: | |q[{st + 3}:{st + 7}]| - 1 | = {dq:.3e} > {qtol:g} at step {t} '
+               f'(quaternion coordinates of a free joint)', step=t, deviation=dq)
     if np.isfinite(dev):
       res['quat_dev'] = max(res['quat_dev'], dev)
       if dev > qtol:
@@ -727,9 +745,10 @@ def pick_tasks(ctx, offset=0, only_envs=None):
     return tasks
   # quick: 6 of the 11 environments -- a window that rotates with the seed, so two consecutive seeds
   # cover all of them -- each on one native backend (all three occur); one process per pair so the jit
-  # cost (15-40 s per pair) is paid in parallel.  VERIF_C16_ENVS=a,b overrides the window (debugging).
+  # cost (15-40 s per pair) is paid in parallel.  VERIF_C16_ENVS=env[:backend],... overrides the window (debugging).
   envs_ = [n for n in NAMES if not only_envs or n in only_envs]
-  forced = [n for n in os.environ.get('VERIF_C16_ENVS', '').split(',') if n in NAMES]
+  forced_b = dict((e.split(':') + [None])[:2] for e in os.environ.get('VERIF_C16_ENVS', '').split(',') if e)
+  forced = [n for n in forced_b if n in NAMES]
   if forced and not only_envs:
     chosen = forced
   else:
@@ -739,6 +758,8 @@ def pick_tasks(ctx, offset=0, only_envs=None):
   tasks = []
   for i, n in enumerate(chosen):
     b = SUPPORTED[n][(i + shift) % len(SUPPORTED[n])]
+    if forced and not only_envs and forced_b.get(n) in SUPPORTED[n]:
+      b = forced_b[n]
     tasks.append(make_task(n, b, ctx.seed + offset, 50, 8, 30, 1))
   if 'swimmer' not in chosen and not only_envs and not forced:
     # swimmer is the environment with a known platform problem (D6): probed on every run, short
@@ -760,7 +781,7 @@ def _collect(ctx, tasks, procs):
     dis += r['disagreements']; fails += r['spec_failures']; samples += r['samples']
     ev += r['evaluations']; st += r['states']
     per_pair[f'{r["name"]}/{r["backend"]}' + ('' if r['x64'] or r['name'] in F32_ONLY else '/float32')] = dict(
-        dtype='float64' if r['x64'] else 'float32', max_quat_deviation=r['quat_dev'], max_model_error=r['model_err'],
+        dtype='float64' if r['x64'] else 'float32', max_quat_deviation=r['quat_dev'], max_free_joint_quat_deviation=r['qquat_dev'], max_model_error=r['model_err'],
         wall=r['wall'], **{k: v for k, v in r['stats'].items() if k != 'kinds'})
   return dict(dis=dis, fails=fails, samples=samples, per_pair=per_pair, evaluations=ev, states=st,
               wall=round(time.time() - t0, 1))
@@ -820,6 +841,19 @@ def replay(ctx, rp):
   if same:
     return False, f'reproduced: {same[0]["what"]}'
   return True, f'not reproduced on this tree: {rp["key"]} ({rp["env"]}/{rp["backend"]})'
+
+
+def reproduce_known(ctx, entry):
+  """re-run the smallest trajectory that shows a listed finding (by key)"""
+  key = entry.get('key')
+  if key == D6_KEY:
+    t = make_task('swimmer', 'generalized', 0, 2, 2, 1000, 10 ** 9, determinism=False, contract=False)
+  elif key == D3_KEY:
+    t = make_task('inverted_pendulum', 'positional', 0, 5, 8, 1000, 10 ** 9, determinism=False, contract=False)
+  else:
+    return True
+  r = run_tasks(ctx, [t], 1)[0]
+  return any(f['key'] == key for f in r['spec_failures'])
 
 
 if __name__ == '__main__':
